@@ -14,12 +14,15 @@ def renderCounts : List (Int × NS) → List Nat → List String
   | (_, s) :: ws, c :: cs => repeatStr (symbol s) c :: renderCounts ws cs
   | _, _ => []
 
-/-- `cs` are the greedy counts for `v`: each is the (truncating) quotient of what is left by the
-    weight, in the order of the tuples, and nothing is left at the end -/
+/-- `cs` are the greedy counts for `v`: a zero weight gets the count 0, any other the (truncating)
+    quotient of what is left by the weight, in the order of the tuples; nothing is left at the end -/
 def Greedy : List (Int × NS) → Int → List Nat → Prop
   | _, v, [] => v = 0
-  | (w, _) :: ws, v, c :: cs => w ≠ 0 ∧ (c : Int) = v.tdiv w ∧ Greedy ws (v - w * c) cs
+  | (w, _) :: ws, v, c :: cs =>
+    (w = 0 ∧ c = 0 ∧ Greedy ws v cs) ∨ (w ≠ 0 ∧ (c : Int) = v.tdiv w ∧ Greedy ws (v - w * c) cs)
   | [], _, _ :: _ => False
+
+theorem repeatStr_zero (s : String) : repeatStr s 0 = "" := rfl
 
 theorem additiveLoop_ok : ∀ (syms : List (Int × NS)) (v : Int) (acc : List String) (s : String),
     additiveLoop syms v acc = .ok s →
@@ -33,7 +36,12 @@ theorem additiveLoop_ok : ∀ (syms : List (Int × NS)) (v : Int) (acc : List St
     obtain ⟨w, sym⟩ := ws
     simp only [additiveLoop] at h
     by_cases hw : w = 0
-    · simp [hw] at h
+    · simp only [hw, if_true] at h
+      obtain ⟨cs, hne, hlen, hs, hsum, hg⟩ := ih _ _ _ h
+      refine ⟨0 :: cs, by simp, by simp; omega, ?_, ?_, ?_⟩
+      · rw [hs]; simp [renderCounts, repeatStr_zero, concat_append, concat_cons]
+      · simp only [weightedSum, hw, hsum]; omega
+      · simp only [Greedy]; exact .inl ⟨hw, trivial, hg⟩
     · simp only [hw, if_false] at h
       by_cases hneg : v.tdiv w < 0
       · simp [hneg] at h
@@ -44,32 +52,33 @@ theorem additiveLoop_ok : ∀ (syms : List (Int × NS)) (v : Int) (acc : List St
           refine ⟨[(v.tdiv w).toNat], by simp, by simp, ?_, ?_, ?_⟩
           · rw [← h]; simp [renderCounts, List.reverse_cons]
           · simp only [weightedSum, hc]; omega
-          · simp only [Greedy, hc]; exact ⟨hw, trivial, hz⟩
+          · simp only [Greedy, hc]; exact .inr ⟨hw, trivial, hz⟩
         · simp only [hz, if_false] at h
           obtain ⟨cs, hne, hlen, hs, hsum, hg⟩ := ih _ _ _ h
           refine ⟨(v.tdiv w).toNat :: cs, by simp, by simp; omega, ?_, ?_, ?_⟩
           · rw [hs]; simp [renderCounts, List.reverse_cons, List.append_assoc]
           · simp only [weightedSum, hc, hsum]; omega
-          · simp only [Greedy, hc]; exact ⟨hw, trivial, hg⟩
+          · simp only [Greedy, hc]; exact .inr ⟨hw, trivial, hg⟩
 
-theorem repeatStr_size (s : String) (n : Nat) : (repeatStr s n).utf8ByteSize = n * s.utf8ByteSize := by
+theorem repeatStr_length (s : String) (n : Nat) : (repeatStr s n).length = n * s.length := by
   induction n with
   | zero => simp [repeatStr, concat]
   | succ k ih =>
-    simp only [repeatStr, List.replicate_succ, concat_cons, String.utf8ByteSize_append] at ih ⊢
+    simp only [repeatStr, List.replicate_succ, concat_cons, String.length_append] at ih ⊢
     rw [ih, Nat.succ_mul]; omega
 
-/-- pad: with a one-byte pad symbol the result (sign included) has exactly max(pad length, natural length) bytes -/
-theorem finish_size (d : Desc) (neg : Bool) (np ns initial : String) (h1 : (symbol d.padSym).utf8ByteSize = 1) :
-    (finish d neg np ns initial).utf8ByteSize =
-      max d.padLen.toNat (initial.utf8ByteSize + (if neg then np.utf8ByteSize + ns.utf8ByteSize else 0)) := by
+/-- pad: with a one-character pad symbol the result (sign included) has exactly
+    max(pad length, natural length) characters -/
+theorem finish_length (d : Desc) (neg : Bool) (np ns initial : String) (h1 : (symbol d.padSym).length = 1) :
+    (finish d neg np ns initial).length =
+      max d.padLen.toNat (initial.length + (if neg then np.length + ns.length else 0)) := by
   cases neg <;> simp only [finish, Bool.false_eq_true, if_false, if_true]
   · split
-    · rename_i h; simp only [String.utf8ByteSize_append, repeatStr_size, h1]; omega
+    · rename_i h; simp only [String.length_append, repeatStr_length, h1]; omega
     · rename_i h; omega
   · split
-    · rename_i h; simp only [String.utf8ByteSize_append, repeatStr_size, h1]; omega
-    · rename_i h; simp only [String.utf8ByteSize_append]; omega
+    · rename_i h; simp only [String.length_append, repeatStr_length, h1]; omega
+    · rename_i h; simp only [String.length_append]; omega
 
 /-- negative: the sign wraps the padded representation -/
 theorem finish_negative (d : Desc) (np ns initial : String) :
@@ -79,12 +88,5 @@ theorem finish_negative (d : Desc) (np ns initial : String) :
   · exact ⟨_, rfl⟩
   · exact ⟨"", by simp⟩
 
-
-theorem numeric_ne_no' (symbols : List NS) (v : Int) (h : 2 ≤ symbols.length) : numeric symbols v ≠ .no := by
-  unfold numeric
-  split
-  · split <;> simp
-  · rw [if_neg (by omega)]
-    split <;> simp
 
 end WR.C19
